@@ -105,6 +105,8 @@ func c13Structured() []c13RegexItem {
 	}
 	// valid optional / nested shapes: accepted, lookups total
 	for _, ok := range []string{"/a[/b]", "/a[/{x}]", "/a[/{x}[/{y}]]", "/a[.html]", "/[{x}]", "/a[/b[/c]]", `/a/{x:\d+}[/{y}]`, "/{all}", "/{any}/{num}",
+		// one variable name used twice (accepted or not, the statement does not say - but never a panic at lookup)
+		"/c/{id}/{id}", "/{a}/x/{a}", "/t/{k}[/{k}]", `/c/{id:\d+}/{id}`, "/{a}/{a}/{a}",
 		// literal starts that span several segments
 		"/a/x/{id}", "/a/x/1/{id}", "/a/x/1[/{id}]", "/a/x/{id}/y", "/a/a/a/a/{id}", "/a.x/x.1/{id}", "/a/x/q{id}", "/site/settings/{id}", "/api/v1/users/{id}[/{x}]"} {
 		items = append(items, c13RegexItem{pat: ok, reject: false, paths: []string{"/a", "/a/b", "/a/b/c", "/a/1", "/a/1/2", "/a.html", "/", "/x", "/x/12"}})
@@ -160,7 +162,7 @@ func c13Gen(tier string, emit func(c13Case)) {
 		emit(c13Case{Kind: "method", Method: m})
 	}
 	// handler counts through the three ways to the limit, and mixed group+route
-	for _, via := range []string{"route-use", "variadic", "group", "use-twice"} {
+	for _, via := range []string{"route-use", "variadic", "group", "use-twice", "any", "any-in-group"} {
 		for n := 0; n <= 70; n++ {
 			emit(c13Case{Kind: "count", Via: via, N: n})
 		}
@@ -364,6 +366,10 @@ func c13Run(c c13Case, st *fw.Stats) []fw.Viol {
 				r.Group("/", func() { r.GET("/h", c13Noop) }, mk(c.N)...)
 			case "use-twice":
 				r.GET("/h", c13Noop, mk(c.N/2)...).Use(mk(c.N - c.N/2)...)
+			case "any":
+				r.Any("/h", c13Noop, mk(c.N)...)
+			case "any-in-group":
+				r.Group("/", func() { r.Any("/h", c13Noop, mk(c.N)...) })
 			case "group+route":
 				r.Group("/", func() { r.GET("/h", c13Noop, mk(c.N2)...) }, mk(c.N)...)
 			case "group+attached-route":
@@ -537,6 +543,15 @@ func c13Run(c c13Case, st *fw.Stats) []fw.Viol {
 			lit = lit[:i]
 		}
 		lit += "7/zz"
+		for _, p := range []string{"/c/1/2", "/1/x/2", "/t/1", "/t/1/2", "/c/12/ab", "/a/b/c", "/1/1/1"} {
+			st.Evals++
+			if pv := try(func() { r.Match("GET", p) }); pv != nil {
+				add("lookup:panic:match", fmt.Sprintf("%s was accepted by registration, but Match(\"GET\",%q) panicked: %v", what, p, pv))
+			}
+			if _, pv := serve(r, "GET", p); pv != nil {
+				add("lookup:panic:serve", fmt.Sprintf("%s was accepted by registration, but ServeHTTP(GET %q) panicked: %v", what, p, pv))
+			}
+		}
 		for k := 0; k <= len(lit); k++ {
 			for _, p := range []string{lit[:k], lit[:k] + "/"} {
 				for _, m := range []string{"GET", "POST", "HEAD", "DELETE"} {
@@ -631,7 +646,7 @@ func c13Run(c c13Case, st *fw.Stats) []fw.Viol {
 var c13Spec = fw.Spec[c13Case]{
 	ID:    "C13",
 	Level: "model_checking",
-	Rule: "complete enumeration per category: (rejection) all method-name strings of <=4 letters over {G,E,T,D,L,P,U,S,H,A,space,comma} plus every prefix/suffix/case/concatenation variant of the 9 names, as single and mixed lists; handler counts 0..70 (and 27 counts up to 1000 around powers of two) through Route.Use, variadic middleware, group middleware and mixed; nil handler; options after routes; 13 accepted method sets (one name, several, Any, all but each one) on 4 route shapes x 32 option masks looked up with 22 method strings x 8 paths; structured variable regexes with a capturing group at every position (and escaped / non-capturing controls), optional parts not at the end, uncompilable regexes - each also as the prefix of a group / controller whose route has a plain path; " +
+	Rule: "complete enumeration per category: (rejection) all method-name strings of <=4 letters over {G,E,T,D,L,P,U,S,H,A,space,comma} plus every prefix/suffix/case/concatenation variant of the 9 names, as single and mixed lists; handler counts 0..70 (and 27 counts up to 1000 around powers of two) through Route.Use, variadic middleware, Any(), group middleware and mixed; nil handler; options after routes; 13 accepted method sets (one name, several, Any, all but each one) on 4 route shapes x 32 option masks looked up with 22 method strings x 8 paths; structured variable regexes with a capturing group at every position (and escaped / non-capturing controls), optional parts not at the end, uncompilable regexes - each also as the prefix of a group / controller whose route has a plain path; " +
 		"(totality) ALL pattern strings of <=5 (thorough 6) tokens over 15 tokens: every one registration accepts is matched against 156 short paths + 16 special paths x 7 method strings through Match and ServeHTTP, on a default router and with all options on; non-trivial = an invalid-by-construction definition, or an accepted dynamic raw pattern",
 	Assume: []string{"invalid definitions are built by injecting one listed fault into a valid definition; raw token strings are never classified, only checked for lookup totality"},
 	Bounds: func(tier string) map[string]any {
